@@ -197,13 +197,15 @@ typedef struct hx_shared {
     volatile int signo; volatile uintptr_t fault_addr;
     volatile uint32_t text_len;
     int nskip; uint64_t skip[64];
+    char note[160];                  /* attribution note of the execution in flight (e.g. the failed allocation site) */
     char text[SH_TEXT];
 } hx_shared;
 static hx_shared *sh = NULL;
 static hx_buf death_buf;             /* pre-sized: no allocation in the death path                 */
 static int watchdog_secs = 10;
 
-static void inflight_publish(const hx_script *s) { (void) s; if (sh) sh->exec_counter++; }
+static void inflight_publish(const hx_script *s) { (void) s; if (sh) { sh->exec_counter++; sh->note[0] = 0; } }
+void hx_note_set(const char *t) { if (sh) { strncpy((char *) sh->note, t, sizeof sh->note - 1); ((char *) sh->note)[sizeof sh->note - 1] = 0; } }
 static int inflight_skip(void) {
     if (!sh) return 0;
     for (int i = 0; i < sh->nskip; i++) if (sh->skip[i] == sh->exec_counter) return 1;
@@ -344,8 +346,10 @@ int hx_supervise(int argc, char **argv, hx_worker_fn fn) {
         crashes++;
         static char err[1 << 16]; size_t en = 0;
         FILE *ef = fopen(errpath, "r"); if (ef) { en = fread(err, 1, sizeof err - 1, ef); fclose(ef); } err[en] = 0;
-        char sig[300] = "", msg[600] = "";
+        char sig[480] = "", msg[800] = "";
         crash_signature(err, sig, sizeof sig, msg, sizeof msg);
+        if (sh->note[0] && sig[0]) { strncat(sig, "|", sizeof sig - strlen(sig) - 1); strncat(sig, (const char *) sh->note, sizeof sig - strlen(sig) - 1);
+                                     strncat(msg, " [", sizeof msg - strlen(msg) - 1); strncat(msg, (const char *) sh->note, sizeof msg - strlen(msg) - 1); strncat(msg, "]", sizeof msg - strlen(msg) - 1); }
         const char *kind = "crash";
         if (sh->reason == 3) { kind = "hang"; snprintf(sig, sizeof sig, "hang"); snprintf(msg, sizeof msg, "execution exceeded the %d s CPU watchdog", watchdog_secs); }
         else if (!sig[0]) {
